@@ -212,6 +212,7 @@ type TKAI struct {
 	isKwL       *ssa.Function
 	isId        *ssa.Function
 	holder      map[*ssa.Alloc][]ssa.Value // local cells holding a token.Token copy -> stored struct values
+	fetch       map[*ssa.Function]bool
 	touch       map[*ssa.Function]bool
 	pfacts      map[*ssa.Parameter]KSet
 	solving     bool
@@ -947,6 +948,44 @@ func (tk *TKAI) applyCallee(ci *ctxInfo, st *TState, in ssa.CallInstruction, cal
 
 // touchesLexer: can the function (transitively) reach the consumption primitive or write the
 // current token / Parser.Lexer?
+// fetches: fn may fetch a token (it reaches the lexer's nextToken through calls); unlike touchesLexer, rewriting the
+// current token in place (the '>>' split) or swapping the lexer does not count.
+func (tk *TKAI) fetches(fn *ssa.Function) bool {
+	if tk.fetch == nil {
+		tk.fetch = map[*ssa.Function]bool{}
+		for changed := true; changed; {
+			changed = false
+			for _, f := range tk.w.ModFns {
+				if tk.fetch[f] {
+					continue
+				}
+				hit := false
+				for _, b := range f.Blocks {
+					for _, in := range b.Instrs {
+						ci, ok := in.(ssa.CallInstruction)
+						if !ok {
+							continue
+						}
+						if ci.Common().StaticCallee() == tk.prim {
+							hit = true
+						}
+						for _, c := range tk.w.Callees(ci) {
+							if c == tk.prim || tk.fetch[c] {
+								hit = true
+							}
+						}
+					}
+				}
+				if hit {
+					tk.fetch[f] = true
+					changed = true
+				}
+			}
+		}
+	}
+	return tk.fetch[fn]
+}
+
 func (tk *TKAI) touchesLexer(fn *ssa.Function) bool {
 	if tk.touch == nil {
 		tk.touch = map[*ssa.Function]bool{}
